@@ -22,7 +22,8 @@ theorem GInv.clean {w : World} (hp : GInv ex fr w) {p : Pid} (hx : ¬ ex p)
   have haw : guardAw w p = [] := by
     rcases hp.ga p with h | ⟨g, f, h1, h2, _⟩
     · exact h
-    · rw [(hf f h1).1] at h2; cases h2
+    · have := frameOn_guardFrame h2
+      rw [(hf f h1).1] at this; cases this
   refine ⟨haw, ?_, ?_, ?_⟩
   · intro g hq
     have := (hp.gk g _ hq).2.2 (by simpa using hx)
